@@ -14,13 +14,14 @@ theorem runTryB_spec {runF : RunF} (HG : HypG runF) (HA : HypA runF) (b : Beh) (
       (pushTryFrame tryPanicMarker (-1) s) hI ((Same.refl _).toExt false) rfl ((Same.refl _).toExt false) _ rfl
     obtain ⟨a1, a2, a3, a4, a5, a6, a7, a8, a9, a10, a11, a12⟩ := this
     have hne := unwind_no_exit runF .fatal (pushTryFrame tryPanicMarker (-1) s)
-    refine ⟨⟨a1, hne⟩, mkSame ⟨a4, a5, a6, a7, a8, a9, a10, a11⟩, fun hnf => ?_⟩
+    refine ⟨⟨a1, hne.1, hne.2⟩, mkSame ⟨a4, a5, a6, a7, a8, a9, a10, a11⟩, fun hnf => ?_⟩
     cases hu : (unwindAtMarker runF .fatal (pushTryFrame tryPanicMarker (-1) s)).1 with
     | thrown => have := a3 hu; simp at this
     | fatal => exact absurd hu hnf
     | normal => exact absurd hu a2
     | stuck => exact absurd hu a1
-    | exit e => exact absurd hu (hne e)
+    | exit e => exact absurd hu (hne.1 e)
+    | yielded => exact absurd hu hne.2
   · exact tryB_spec HG HA b s hI
 
 /-! ### __call -/
@@ -138,14 +139,16 @@ theorem goCall_good {runF : RunF} (HG : HypG runF) (HA : HypA runF) (n : Nat) (f
         | stuck => exact absurd hu a1
         | thrown => simpa using hext' true
         | fatal => simpa using hext' false
-        | exit e => exact absurd hu (unwind_no_exit runF o s4 e)
+        | exit e => exact absurd hu ((unwind_no_exit runF o s4).1 e)
+        | yielded => exact absurd hu (unwind_no_exit runF o s4).2
       · have ho : o = .thrown := by
           cases hu : (unwindAtMarker runF o s4).1 with
           | thrown => exact a3 hu
           | fatal => exact absurd hu hnf
           | normal => exact absurd hu a2
           | stuck => exact absurd hu a1
-          | exit e => exact absurd hu (unwind_no_exit runF o s4 e)
+          | exit e => exact absurd hu ((unwind_no_exit runF o s4).1 e)
+          | yielded => exact absurd hu (unwind_no_exit runF o s4).2
         rw [a12 hnf, hq4 (by simp [ho]), hq3, p8]
     simp only
     by_cases hint : s3.interrupted = true
@@ -170,6 +173,7 @@ theorem goCall_good {runF : RunF} (HG : HypG runF) (HA : HypA runF) (n : Nat) (f
       | stuck => simp [GoodCtl] at hc
       | thrown => exact unwind .thrown true s4 (fun _ => rfl) hc hq
       | fatal => exact unwind .fatal false s4 (by simp) hc (by simp)
+      | yielded => simp only [GoodCtl] at hc; exact unwind .fatal false s4 (by simp) hc.1 (by simp)
 
 /-! ### RunProgram, recursive -/
 
@@ -177,7 +181,7 @@ theorem runProgramRec_spec {runF : RunF} (HG : HypG runF) (HA : HypA runF) (p : 
     (s : Vm) (_hI : Inv s) : ApiGood s (runProgramRec runF p b s) := by
   unfold runProgramRec
   cases hp : pushCtx s with
-  | none => exact ⟨⟨by simp, by simp⟩, Same.refl s, fun _ => rfl⟩
+  | none => exact ⟨⟨by simp, by simp, by simp⟩, Same.refl s, fun _ => rfl⟩
   | some s1 =>
     have := pushCtx_some hp; subst this
     simp only
@@ -210,11 +214,11 @@ theorem runProgramRec_spec {runF : RunF} (HG : HypG runF) (HA : HypA runF) (p : 
 /-! ### leave / runWrapped -/
 
 theorem runJobs_spec {runF : RunF} (HA : HypA runF) : ∀ (jobs : List Beh) (s : Vm), Inv s →
-    ((runJobs runF jobs s).1 ≠ .stuck ∧ ∀ e, (runJobs runF jobs s).1 ≠ .exit e) ∧ (runJobs runF jobs s).1 ≠ .thrown ∧ Same s (runJobs runF jobs s).2 ∧
+    ((runJobs runF jobs s).1 ≠ .stuck ∧ (∀ e, (runJobs runF jobs s).1 ≠ .exit e) ∧ (runJobs runF jobs s).1 ≠ .yielded) ∧ (runJobs runF jobs s).1 ≠ .thrown ∧ Same s (runJobs runF jobs s).2 ∧
     Quiet s (runJobs runF jobs s) := by
   intro jobs
   induction jobs with
-  | nil => intro s _; exact ⟨⟨by simp [runJobs], by simp [runJobs]⟩, by simp [runJobs], Same.refl s, fun _ => rfl⟩
+  | nil => intro s _; exact ⟨⟨by simp [runJobs], by simp [runJobs], by simp [runJobs]⟩, by simp [runJobs], Same.refl s, fun _ => rfl⟩
   | cons j js ih =>
     intro s hI
     unfold runJobs
@@ -226,25 +230,26 @@ theorem runJobs_spec {runF : RunF} (HA : HypA runF) : ∀ (jobs : List Beh) (s :
     cases o <;> simp only
     · exact ⟨ih1.1, ih1.2.1, h2.trans ih1.2.2.1, fun hn => (ih1.2.2.2 hn).trans (h3 (by simp))⟩
     · exact ⟨ih1.1, ih1.2.1, h2.trans ih1.2.2.1, fun hn => (ih1.2.2.2 hn).trans (h3 (by simp))⟩
-    · exact ⟨⟨by simp, by simp⟩, by simp, h2, by simp [Quiet]⟩
+    · exact ⟨⟨by simp, by simp, by simp⟩, by simp, h2, by simp [Quiet]⟩
     · exact absurd rfl h1.1
-    · rename_i e; exact absurd rfl (h1.2 e)
+    · rename_i e; exact absurd rfl (h1.2.1 e)
+    · exact absurd rfl h1.2.2
 
 /-- leave (runtime.go): whatever the jobs do, the control state is untouched; a normal return means the
 queue is empty -/
 theorem leaveLoop_spec {runF : RunF} (HA : HypA runF) : ∀ (lf : Nat) (s : Vm), Inv s →
-    ((leaveLoop runF lf s).1 ≠ .stuck ∧ ∀ e, (leaveLoop runF lf s).1 ≠ .exit e) ∧ (leaveLoop runF lf s).1 ≠ .thrown ∧ Same s (leaveLoop runF lf s).2 ∧
+    ((leaveLoop runF lf s).1 ≠ .stuck ∧ (∀ e, (leaveLoop runF lf s).1 ≠ .exit e) ∧ (leaveLoop runF lf s).1 ≠ .yielded) ∧ (leaveLoop runF lf s).1 ≠ .thrown ∧ Same s (leaveLoop runF lf s).2 ∧
     Quiet s (leaveLoop runF lf s) ∧
     ((leaveLoop runF lf s).1 = .normal → (leaveLoop runF lf s).2.jobQueue = []) := by
   intro lf
   induction lf with
-  | zero => intro s _; exact ⟨⟨by simp [leaveLoop], by simp [leaveLoop]⟩, by simp [leaveLoop], Same.refl s, by simp [Quiet, leaveLoop], by simp [leaveLoop]⟩
+  | zero => intro s _; exact ⟨⟨by simp [leaveLoop], by simp [leaveLoop], by simp [leaveLoop]⟩, by simp [leaveLoop], Same.refl s, by simp [Quiet, leaveLoop], by simp [leaveLoop]⟩
   | succ n ih =>
     intro s hI
     unfold leaveLoop
     split
     · rename_i hq
-      exact ⟨⟨by simp, by simp⟩, by simp, Same.refl s, fun _ => rfl, fun _ => hq⟩
+      exact ⟨⟨by simp, by simp, by simp⟩, by simp, Same.refl s, fun _ => rfl, fun _ => hq⟩
     · have hI0 : Inv ({ s with jobQueue := [] } : Vm) := inv_of_eq rfl rfl hI
       have hj := runJobs_spec HA s.jobQueue { s with jobQueue := [] } hI0
       simp only
@@ -258,9 +263,10 @@ theorem leaveLoop_spec {runF : RunF} (HA : HypA runF) : ∀ (lf : Nat) (s : Vm),
         have ih1 := ih s1 (j3'.inv hI)
         exact ⟨ih1.1, ih1.2.1, j3'.trans ih1.2.2.1, fun hn => (ih1.2.2.2.1 hn).trans (j4 (by simp)), ih1.2.2.2.2⟩
       | thrown => exact absurd rfl j2
-      | fatal => exact ⟨⟨by simp, by simp⟩, by simp, j3', by simp [Quiet], by simp⟩
+      | fatal => exact ⟨⟨by simp, by simp, by simp⟩, by simp, j3', by simp [Quiet], by simp⟩
       | stuck => exact absurd rfl j1.1
-      | exit e => exact absurd rfl (j1.2 e)
+      | exit e => exact absurd rfl (j1.2.1 e)
+      | yielded => exact absurd rfl j1.2.2
 
 theorem leaveAbrupt_same {s : Vm} (hI : Inv s) (h0 : s.callStack.length = 0) : Same s (leaveAbrupt s) := by
   have hc : s.callStack = [] := List.length_eq_zero_iff.mp h0
@@ -276,7 +282,7 @@ theorem runWrapped_spec {runF : RunF} (HG : HypG runF) (HA : HypA runF) (lf : Na
   obtain ⟨o, s1⟩ := r
   obtain ⟨h1, h2, h3⟩ := ha
   have hI1 := h2.inv hI
-  have tail : ∀ (oo : Outcome), oo ≠ .fatal → (oo ≠ .stuck ∧ ∀ e, oo ≠ .exit e) → s1.interrupted = s.interrupted →
+  have tail : ∀ (oo : Outcome), oo ≠ .fatal → (oo ≠ .stuck ∧ (∀ e, oo ≠ .exit e) ∧ oo ≠ .yielded) → s1.interrupted = s.interrupted →
       ApiGood s (leaveOrClear runF lf oo s1) := by
     intro oo hnf hns hq1
     unfold leaveOrClear
@@ -289,20 +295,22 @@ theorem runWrapped_spec {runF : RunF} (HG : HypG runF) (HA : HypA runF) (lf : Na
       cases ol with
       | normal => exact ⟨hns, h2.trans l3, fun _ => (l4 (by simp)).trans hq1⟩
       | stuck => exact absurd rfl l1.1
-      | exit e => exact absurd rfl (l1.2 e)
+      | exit e => exact absurd rfl (l1.2.1 e)
+      | yielded => exact absurd rfl l1.2.2
       | thrown => exact absurd rfl l2
       | fatal =>
-        refine ⟨⟨by simp, by simp⟩, (h2.trans l3).trans (leaveAbrupt_same (l3.inv hI1) ?_), by simp [Quiet]⟩
+        refine ⟨⟨by simp, by simp, by simp⟩, (h2.trans l3).trans (leaveAbrupt_same (l3.inv hI1) ?_), by simp [Quiet]⟩
         rw [l3.cs]; exact h0
     · exact ⟨hns, h2, fun _ => hq1⟩
   cases o with
-  | normal => exact tail .normal (by simp) ⟨by simp, by simp⟩ (h3 (by simp))
-  | thrown => exact tail .thrown (by simp) ⟨by simp, by simp⟩ (h3 (by simp))
+  | normal => exact tail .normal (by simp) ⟨by simp, by simp, by simp⟩ (h3 (by simp))
+  | thrown => exact tail .thrown (by simp) ⟨by simp, by simp, by simp⟩ (h3 (by simp))
   | stuck => exact absurd rfl h1.1
-  | exit e => exact absurd rfl (h1.2 e)
+  | exit e => exact absurd rfl (h1.2.1 e)
+  | yielded => exact absurd rfl h1.2.2
   | fatal =>
     simp only
-    refine ⟨⟨by simp, by simp⟩, ?_, by simp [Quiet]⟩
+    refine ⟨⟨by simp, by simp, by simp⟩, ?_, by simp [Quiet]⟩
     split
     · rename_i h0; exact h2.trans (leaveAbrupt_same hI1 h0)
     · exact h2
